@@ -654,9 +654,14 @@ fn rand_desc(r: &mut Rng, nasty: bool) -> Option<String> {
     })
 }
 
+/// boundary strings every string-valued slot must carry (all harmless today)
+const BOUNDARY: &[&str] = &["", " ", "  ", "x", "\u{e9}", "\u{4e2d}\u{1f600}", "No longer supported", "null", "#", "a,b"];
+
 fn rand_depr(r: &mut Rng, nasty: bool) -> Option<Option<String>> {
-    match r.below(10) {
+    match r.below(12) {
         0 => Some(None),
+        10 => Some(Some(pk(r, BOUNDARY).to_string())),
+        11 => Some(Some(pk(r, &["", " ", "a\\b", "l1\nl2", "t\tt", "\u{e9}\n"]).to_string())),
         1 | 2 => Some(Some(if nasty && r.chance(1, 3) {
             rand_text(r, 2)
         } else {
@@ -681,6 +686,8 @@ fn rand_value(r: &mut Rng, depth: usize, nasty: bool) -> Value {
         3 => Value::from(*r.pick(&[0.5f64, -1.25, 1e21, 3.0, 1.5e-7, 123456.789])),
         4 | 5 => Value::String(if nasty && r.chance(1, 3) {
             rand_text(r, 2)
+        } else if r.chance(1, 4) {
+            pk(r, BOUNDARY).to_string()
         } else {
             let mut t = rand_text(r, 1);
             if r.chance(1, 3) {
@@ -863,7 +870,13 @@ fn gen_schema(r: &mut Rng, nasty: bool) -> SchemaD {
         types.push(TypeD { name: e.clone(), desc: rand_desc(r, nasty), dirs: rand_invs(r, &directives, Loc::ENUM, nasty), kind: KindD::Enum { values } });
     }
     for s in &scalars {
-        let url = if r.chance(1, 2) { Some(format!("https://example.com/{}", rand_text(r, 0).replace(' ', "/"))) } else { None };
+        let url = if r.chance(1, 8) {
+            Some(pk(r, &["", " ", "x"]).to_string())
+        } else if r.chance(1, 2) {
+            Some(format!("https://example.com/{}", rand_text(r, 0).replace(' ', "/")))
+        } else {
+            None
+        };
         types.push(TypeD { name: s.clone(), desc: rand_desc(r, nasty), dirs: rand_invs(r, &directives, Loc::SCALAR, nasty), kind: KindD::Scalar { url } });
     }
     for i in &inputs {
@@ -1022,6 +1035,74 @@ fn corpus() -> Vec<(&'static str, SchemaD)> {
             directives: vec![],
         },
     ));
+    // boundary strings in every string-valued slot: empty / blank
+    for (name, e, de) in [("empty-strings", "", ""), ("blank-strings", " ", "x")] {
+        let es = || Some(e.to_string());
+        let dv = || Some(Value::String(e.into()));
+        let inv_e: Inv = ("tag".into(), vec![("n".into(), Value::String(e.into()))]);
+        let tag_e = DirD {
+            name: "tag".into(),
+            desc: Some(de.to_string()),
+            locs: vec![Loc::OBJECT, Loc::FIELD_DEFINITION, Loc::ARGUMENT_DEFINITION, Loc::ENUM_VALUE, Loc::INPUT_FIELD_DEFINITION],
+            args: vec![InputD { name: "n".into(), ty: "String".into(), default: dv(), ..Default::default() }],
+            repeatable: false,
+        };
+        v.push((
+            name,
+            SchemaD {
+                types: vec![
+                    TypeD {
+                        name: "E".into(),
+                        desc: Some(de.to_string()),
+                        dirs: vec![],
+                        kind: KindD::Enum {
+                            values: vec![
+                                EnumVD { name: "A".into(), desc: Some(de.to_string()), depr: Some(es()), dirs: vec![inv_e.clone()] },
+                                EnumVD { name: "B".into(), desc: None, depr: Some(None), dirs: vec![] },
+                                EnumVD { name: "C".into(), desc: None, depr: Some(Some("No longer supported".into())), dirs: vec![] },
+                            ],
+                        },
+                    },
+                    TypeD {
+                        name: "In".into(),
+                        desc: Some(de.to_string()),
+                        dirs: vec![],
+                        kind: KindD::Input {
+                            fields: vec![
+                                InputD { name: "s".into(), ty: "String".into(), desc: Some(de.to_string()), default: dv(), depr: Some(es()), dirs: vec![inv_e.clone()] },
+                                InputD { name: "t".into(), ty: "String".into(), depr: Some(None), ..Default::default() },
+                            ],
+                            oneof: false,
+                        },
+                    },
+                    TypeD { name: "S".into(), desc: Some(de.to_string()), dirs: vec![], kind: KindD::Scalar { url: es() } },
+                    TypeD {
+                        name: "Query".into(),
+                        desc: Some(de.to_string()),
+                        dirs: vec![inv_e.clone()],
+                        kind: KindD::Object {
+                            fields: vec![
+                                FieldD { name: "probe".into(), ty: "Boolean!".into(), ..Default::default() },
+                                FieldD { depr: Some(es()), desc: Some(de.to_string()), dirs: vec![inv_e.clone()], ..f("oldEmpty", "Int") },
+                                FieldD { depr: Some(None), ..f("oldBare", "Int") },
+                                FieldD { depr: Some(Some("No longer supported".into())), ..f("oldDefault", "Int") },
+                                FieldD {
+                                    args: vec![
+                                        InputD { name: "a".into(), ty: "String".into(), desc: Some(de.to_string()), default: dv(), depr: Some(es()), dirs: vec![inv_e.clone()] },
+                                        InputD { name: "b".into(), ty: "In".into(), depr: Some(None), ..Default::default() },
+                                        InputD { name: "c".into(), ty: "E".into(), default: dv(), ..Default::default() },
+                                    ],
+                                    ..f("pick", "S")
+                                },
+                            ],
+                            implements: vec![],
+                        },
+                    },
+                ],
+                directives: vec![tag_e],
+            },
+        ));
+    }
     // multi-line argument lists: description on the first / second / both
     v.push((
         "args-multiline",
@@ -1224,6 +1305,8 @@ mod clean {
         Large,
         #[graphql(deprecation)]
         Huge,
+        #[graphql(deprecation = "")]
+        Tiny,
     }
 
     /// Paging
@@ -1241,6 +1324,10 @@ mod clean {
         #[graphql(default = true)]
         pub flag: bool,
         pub more: Option<Vec<i32>>,
+        #[graphql(deprecation = "", default = "")]
+        pub legacy: String,
+        #[graphql(deprecation = " ")]
+        pub older: Option<i32>,
     }
 
     #[derive(OneofObject)]
@@ -1272,6 +1359,11 @@ mod clean {
         async fn thing(&self) -> Option<Thing> {
             None
         }
+        #[graphql(deprecation = "")]
+        async fn old_empty(&self, #[graphql(deprecation = "", default = 1)] a: i32, #[graphql(deprecation)] b: Option<i32>) -> i32 {
+            let _ = b;
+            a
+        }
         #[graphql(deprecation = "use items")]
         async fn media(&self, #[graphql(default)] n: i32, #[graphql(default = "x")] s: String) -> Vec<Media> {
             let _ = (n, s);
@@ -1288,6 +1380,8 @@ mod clean {
         m.insert("Page.flag".to_string(), Value::Boolean(true));
         m.insert("Query.items.first".to_string(), Value::from(7));
         m.insert("Query.items.size".to_string(), Value::Enum(Name::new("SMALL")));
+        m.insert("Page.legacy".to_string(), Value::String("".into()));
+        m.insert("Query.oldEmpty.a".to_string(), Value::from(1));
         m.insert("Query.media.n".to_string(), Value::from(0));
         m.insert("Query.media.s".to_string(), Value::String("x".into()));
         m
